@@ -10,6 +10,18 @@ BASELINE = ("cd /repo && /venv/bin/python -m pytest -ra -q -p no:cacheprovider -
 
 # id -> (category, technique, level text, level note, design ref)
 CHECKS = {
+    "C20": ("exploration",
+            "Hypothesis-generated document sets and queries (hits and misses, string and dict form, match and "
+            "fuzzy mode); differential against an independent evaluation of every combination on the source "
+            "documents",
+            "Queries over one to four attribute/value pairs of one kind or spanning kinds are built from "
+            "values harvested from the generated documents or absent from them; the finder's output is parsed "
+            "into blocks and compared with an independent evaluation on the source documents: a block exactly "
+            "for the combinations with a hit, once, most specific first, and per block the set of nodes of each "
+            "queried kind. Sampling only.",
+            "Document+Property combinations without a Section are only checked per node; values compared by "
+            "their text; boolean values are not queried (their RDF lexical form differs from Python's).",
+            "DESIGN.md section 5, C20"),
     "C10": ("exploration",
             "Hypothesis-generated document lists x serialisations x sub-classing x entry points; graph-shape "
             "predicate evaluated with rdflib triple patterns + import round trip on a typed snapshot",
